@@ -179,6 +179,17 @@ def run(cx):
                 ob.matched += 1
         ob.set_sample({"entries": len(ents), "reachable_bodies": len(reach), "sites": listed})
 
+    with cx.ob("C06.1c", "R-PANIC", "the typed-RPC layer between the wire and the user's handler (Rpc::unary, codecs, Status conversions) is driven by remote bytes too: its panic inventory is empty (C17.6 re-evaluated)") as ob:
+        from . import c17
+        sub = cx.__class__("C06", prog, cx.tier, cx.config, cx.tree, repo=cx.repo)
+        c17.run(sub)
+        w = [x for x in sub.obs if x.oid == "C17.6"]
+        ob.count(sum(x.evals for x in w))
+        bad = [v for x in w for v in x.violations if "rpc-panic" in v.key]
+        ob.require(len(w) == 1, "rpc-layer/inventory-evaluated", "C17.6 could not be evaluated", "anemo::rpc")
+        for v in bad:
+            ob.fail("refuted", "rpc-layer/" + v.key.split("rpc-panic/", 1)[-1], "remote-reachable panic in the typed-RPC layer: " + str(v.msg)[:300], v.construct, v.where)
+
     with cx.ob("C06.1b", "R-PANIC", "no panic-capable construct executes inside a peer-map / known-peers critical section (discharges lock-poisoning unwraps)") as ob:
         inner = [p for p in prog.bodies if p.startswith(f"{CM}::ActivePeersInner::") and "__CALLSITE" not in p and "::{" not in p]
         ob.floor(inner, 7, "ActivePeersInner methods")          # (the two one-line accessors contains/len are always inlined)
